@@ -130,7 +130,7 @@ func loadEngine(repoDir, harnessDir string, overlay map[string][]byte, extraPatt
 	}
 	for _, p := range []string{"io", "bufio", "bytes", "strings", "slices", "sort", "cmp",
 		"golang.org/x/exp/maps", "golang.org/x/exp/slices", "golang.org/x/exp/constraints", "maps",
-		"unicode/utf8", "math/bits", "iter", "strconv", "sort", "internal/itoa", "internal/stringslite",
+		"unicode/utf8", "unicode", "math/bits", "iter", "strconv", "sort", "internal/itoa", "internal/stringslite",
 		"internal/itoa", "internal/oserror"} {
 		e.initAllow[p] = true
 	}
